@@ -319,6 +319,9 @@ class Polyline:
             particular subsection of a path whose orientation through the region of interest
             is unknown.
         """
+        vg.shape.check(locals(), "p1", (3,))
+        vg.shape.check(locals(), "p2", (3,))
+
         if self.is_closed:
             return self.flipped_if(
                 self.sliced_at_points(p2, p1).total_length
